@@ -10,6 +10,7 @@ State: linear inequalities  sum(coef * symbol) <= bound  and disequalities  lin 
 Per CFG node a bounded set of such states is kept (disjunctive up to CAP, then joined; loop heads widened).
 Implication is decided by summing at most four known inequalities (sound, incomplete).  Forgetting a symbol
 projects it out (Fourier-Motzkin on that symbol), so derived facts about the other symbols survive."""
+import re
 from collections import deque
 from . import ir
 from .ir import strip, show, walk, int_val, is_int, access_path
@@ -66,49 +67,77 @@ def le(lhs, rhs):
 
 
 _imp_cache = {}
+POSTS = {}                 # callee name -> field postconditions of its successful returns (Analyzer.summary)
+SIZE_MAX = (1 << 64) - 1
+MAXW = (1 << 64) - 1       # largest size_t of the analysed configuration (w64)
 
 
 def _fm_infeasible(cons):
     """rational infeasibility of a set of inequalities by Fourier-Motzkin elimination (bounded)"""
-    cur = set(cons)
+    from math import gcd
+    cur = {}
+    for k, b in cons:
+        if not k:
+            if b < 0:
+                return True
+            continue
+        if k not in cur or b < cur[k]:
+            cur[k] = b
     for _ in range(40):
-        if any(not k and b < 0 for k, b in cur):
-            return True
-        syms = {}
-        for k, b in cur:
-            for s_, v in k:
-                p, n = syms.get(s_, (0, 0))
-                syms[s_] = (p + (v > 0), n + (v < 0))
-        if not syms:
+        if not cur:
             return False
-        # eliminate the cheapest symbol
-        s_ = min(syms, key=lambda x: syms[x][0] * syms[x][1] - syms[x][0] - syms[x][1])
-        pos = [(dict(k), b) for k, b in cur if dict(k).get(s_, 0) > 0]
-        neg = [(dict(k), b) for k, b in cur if dict(k).get(s_, 0) < 0]
-        nxt = {(k, b) for k, b in cur if s_ not in dict(k)}
+        cnt = {}
+        for k in cur:
+            for s_, v in k:
+                c = cnt.get(s_)
+                if c is None:
+                    c = cnt[s_] = [0, 0]
+                c[0 if v > 0 else 1] += 1
+        # a symbol bounded on one side only can be dropped with its constraints; otherwise eliminate the cheapest
+        s_ = min(cnt, key=lambda x: cnt[x][0] * cnt[x][1] - cnt[x][0] - cnt[x][1])
+        pos, neg, nxt = [], [], {}
+        for k, b in cur.items():
+            v = 0
+            for x, vv in k:
+                if x == s_:
+                    v = vv
+                    break
+            if v > 0:
+                pos.append((k, b, v))
+            elif v < 0:
+                neg.append((k, b, -v))
+            else:
+                nxt[k] = b
         if len(pos) * len(neg) > 600:
             return False
-        for dp, bp in pos:
-            for dn, bn in neg:
-                a, b_ = dp[s_], -dn[s_]
+        for kp, bp, a in pos:
+            for kn, bn, b_ in neg:
                 acc = {}
-                for x, v in dp.items():
-                    acc[x] = acc.get(x, 0) + v * b_
-                for x, v in dn.items():
-                    acc[x] = acc.get(x, 0) + v * a
-                acc = {x: v for x, v in acc.items() if v != 0}
+                for x, v in kp:
+                    if x != s_:
+                        acc[x] = v * b_
+                for x, v in kn:
+                    if x != s_:
+                        w = acc.get(x, 0) + v * a
+                        if w:
+                            acc[x] = w
+                        else:
+                            acc.pop(x, None)
                 bd = bp * b_ + bn * a
                 if not acc:
                     if bd < 0:
                         return True
                     continue
-                nxt.add((tuple(sorted(acc.items())), bd))
-        # keep only the tightest bound per left-hand side
-        best = {}
-        for k, b in nxt:
-            if k not in best or b < best[k]:
-                best[k] = b
-        cur = set(best.items())
+                g = 0
+                for v in acc.values():
+                    g = gcd(g, abs(v))
+                if g > 1:
+                    acc = {x: v // g for x, v in acc.items()}
+                    bd = bd // g           # floor keeps the integer solutions
+                key = tuple(sorted(acc.items()))
+                if key not in nxt or bd < nxt[key]:
+                    nxt[key] = bd
+        cur = nxt
         if len(cur) > 500:
             return False
     return False
@@ -141,6 +170,11 @@ def implied(cons, target):
         rel.append((((x, -1),), 0))
         if x.startswith("B:"):
             rel.append((((x, 1),), 255))
+        elif x.startswith("E0:"):
+            # [ptr, ptr + count) is an object: no C object is larger than PTRDIFF_MAX octets
+            rel.append((((x, 1),), MAXW >> 1))
+        else:
+            rel.append((((x, 1),), MAXW))      # every symbol is a machine value
     # negation of target:  sum >= tb + 1   <=>   -sum <= -tb - 1
     rel.append((tuple(sorted((x, -v) for x, v in tkey)), -tb - 1))
     res = _fm_infeasible(rel)
@@ -187,6 +221,46 @@ def project(cons, sym):
     return frozenset(out)
 
 
+def simplify(cons):
+    """drop constraints that say nothing (all symbols are >= 0) or follow from the others; divide by the gcd"""
+    from math import gcd
+    out = set()
+    for k, b in cons:
+        if not k:
+            if b < 0:
+                return frozenset({((), -1)})
+            continue
+        g = 0
+        for _, v in k:
+            g = gcd(g, abs(v))
+        if g > 1:
+            k = tuple((s_, v // g) for s_, v in k)
+            b = b // g            # floor: integer tightening
+        if all(v < 0 for _, v in k) and b >= 0:
+            continue
+        out.add((k, b))
+    # tightest bound per left-hand side
+    best = {}
+    for k, b in out:
+        if k not in best or b < best[k]:
+            best[k] = b
+    out = set(best.items())
+    if len(out) > 24:
+        # redundancy elimination, cheapest information first: constraints over call snapshots, then two-symbol ones;
+        # intervals stay (the join's hull needs them) and so do the wider relations (they survive joins that pinned
+        # values do not)
+        def rank(c):
+            ghost = any(s_.startswith(("g:", "t")) for s_, _ in c[0])
+            return (0 if ghost else 1, len(c[0]), repr(c))
+        for c in sorted(out, key=rank):
+            if len(c[0]) == 1 or len(out) <= 24:
+                continue
+            rest = frozenset(out - {c})
+            if implied(rest, c):
+                out = set(rest)
+    return frozenset(out)
+
+
 class State:
     __slots__ = ("cons", "ne")
 
@@ -212,12 +286,43 @@ class Pair:
         self.K = "K:" + name
         self.c0 = "c0:" + name
         self.E0 = "E0:" + name
+        self.root = self       # pairs with the same root measure their offset K from the same address
 
 
 INPUT_NAMES = ("der", "apdu", "cert", "epki", "src", "in", "buf", "body")
 COUNT_NAMES = ("count", "len", "size", "der_len", "cert_len", "apdu_len", "epki_len", "in_len", "body_len")
 NOT_READERS = {"memIsValid", "memIsNullOrValid", "memIsDisjoint2", "memIsDisjoint", "memIsSameOrDisjoint", "memIsDisjoint3",
                "memIsAligned", "utilAssert"}
+
+
+def writer_info(proto):
+    """(index of the output buffer, index of the length parameter, length is an out-pointer, unit) for a DER value decoder
+    that copies the decoded value to a caller buffer; None for the others.  Read off the prototype:
+    der<T>Dec(val, size_t* len, der, count, ..) reports the length it writes, der<T>Dec2(val, der, count, .., size_t len)
+    writes what it is told; BIT lengths are in bits, strings get a terminating NUL."""
+    if proto is None or not re.match(r"der\w*Dec2?$", proto.name):
+        return None
+    ps = proto.params
+    if not ps or not ps[0].get("p") or ps[0].get("pc") or ps[0]["n"] not in ("val", "oid"):
+        return None
+    t0 = (ps[0].get("t") or ps[0].get("ct") or "").replace(" ", "")
+    if t0 not in ("octet*", "char*"):
+        return None            # size_t* / u32* outputs are objects of their own type
+    li = [i for i, p in enumerate(ps) if p["n"] == "len"]
+    if not li:
+        return None
+    lp = ps[li[0]]
+    unit = "bits" if "BIT" in proto.name else "chars" if t0 == "char*" else "octets"
+    return 0, li[0], bool(lp.get("p")), unit
+
+
+def capacity(e):
+    """number of elements of the array object the expression designates (before decay), or None"""
+    e = strip(e)
+    if not isinstance(e, dict) or e.get("k") not in ("Member", "Ref"):
+        return None
+    m = re.match(r"^(?:const )?(?:octet|char|u8|unsigned char)\s*\[(\d+)\]$", (e.get("t") or "").strip())
+    return int(m.group(1)) if m else None
 
 
 def find_pairs(func):
@@ -239,10 +344,16 @@ class Analyzer:
         self.entry_pairs = list(self.pairs.values())
         self.cnt_ids = {p.cnt_id for p in self.pairs.values()}
         self.reads, self.subs, self.rets, self.regions = {}, {}, {}, {}
+        self.writes = {}
         self.pending = {}      # result var id -> (kind, Lin bound, region info)
         self.record = False
         self.ghost = 0
         self.locals_ptr = {}
+        self.ghost_owner = {}
+        self.side = None
+        self.side_line = 0
+        self.cur = None        # the state in which expressions are currently being read (for the wrap obligations)
+        self.wraps = set()
 
     # ---- symbols
     def sym(self, ref):
@@ -255,6 +366,25 @@ class Analyzer:
         return "t%d" % self.ghost
 
     def lin(self, e):
+        """linear form of e over the mathematical integers, or None.  Unsigned arithmetic wraps: a sum or product is
+        accepted only when the current state proves it stays <= MAXW and a difference only when it proves it >= 0;
+        otherwise the machine value is not the linear one and nothing is known about it."""
+        r = self._lin(e)
+        return r
+
+    def _no_wrap(self, a, b, r, op):
+        if not a.t and not b.t:
+            return 0 <= r.c <= MAXW
+        cons = self.cur.cons if self.cur is not None else frozenset()
+        if op == "-":
+            ok = implied(cons, le(C(0), r))
+        else:
+            ok = implied(cons, le(r, C(MAXW)))
+        if not ok:
+            self.wraps.add((op, repr(r)))
+        return ok
+
+    def _lin(self, e):
         e = strip(e)
         if not isinstance(e, dict):
             return None
@@ -274,24 +404,43 @@ class Analyzer:
             if r["id"] not in self.pairs:
                 return V("D:%d" % r["id"])
             return None
+        if k == "Bin" and e["op"] == "-" and strip(e["x"]).get("p") and strip(e["y"]).get("p"):
+            # difference of two pointers into the same input
+            pa, pb = self.ptr_offset(e["x"]), self.ptr_offset(e["y"])
+            if pa is None or pb is None or pa[1] is None or pb[1] is None or pa[0].root is not pb[0].root:
+                return None
+            a, b = V(pa[0].K) + pa[1], V(pb[0].K) + pb[1]
+            r = a - b
+            return r if self._no_wrap(a, b, r, "-") else None
         if k == "Bin" and e["op"] in ("+", "-"):
-            a, b = self.lin(e["x"]), self.lin(e["y"])
+            a, b = self._lin(e["x"]), self._lin(e["y"])
             if a is None or b is None:
                 return None
-            return a + b if e["op"] == "+" else a - b
+            r = a + b if e["op"] == "+" else a - b
+            return r if self._no_wrap(a, b, r, e["op"]) else None
         if k == "Bin" and e["op"] == "*":
-            a, b = self.lin(e["x"]), self.lin(e["y"])
+            a, b = self._lin(e["x"]), self._lin(e["y"])
             if a is not None and b is not None:
+                r = b.scale(a.c) if not a.t else a.scale(b.c) if not b.t else None
+                if r is not None and self._no_wrap(a, b, r, "*"):
+                    return r
+            return None
+        if k == "Bin" and e["op"] == "/" and getattr(self, "side", None) is not None:
+            a, b = self._lin(e["x"]), self._lin(e["y"])
+            if a is not None and b is not None and not b.t and b.c >= 1:
                 if not a.t:
-                    return b.scale(a.c)
-                if not b.t:
-                    return a.scale(b.c)
+                    return C(a.c // b.c) if a.c >= 0 else None
+                q = "q:%s:%d" % (self.side_line, len(self.side))
+                self.side.append((q, a, b.c))
+                cur = self.forget(self.cur, q)
+                self.cur = State(cur.cons | {le(V(q).scale(b.c), a), le(a, V(q).scale(b.c) + C(b.c - 1))}, cur.ne)
+                return V(q)
             return None
         if k == "Bin" and e["op"] == "=":
-            return self.lin(e["y"])
+            return self._lin(e["y"])
         if k == "Index":
             b = strip(e["b"])
-            i = self.lin(e["i"])
+            i = self._lin(e["i"])
             if b.get("k") == "Ref" and b["id"] in self.pairs and i is not None and not i.t and b.get("pc") is not None:
                 return V("B:%s[%d]" % (self.pairs[b["id"]].name, i.c))
             return None
@@ -299,13 +448,22 @@ class Analyzer:
 
     # ---- state ops
     def forget(self, st, sym):
-        return State(project(st.cons, sym), frozenset(n for n in st.ne if not any(s == sym for s, _ in n[0])))
+        if not any(s_ == sym for k, _ in st.cons for s_, _v in k):
+            return State(st.cons, frozenset(n for n in st.ne if not any(s == sym for s, _ in n[0])))
+        return State(simplify(project(st.cons, sym)), frozenset(n for n in st.ne if not any(s == sym for s, _ in n[0])))
 
     def forget_prefix(self, st, prefix):
         syms = {s for k, b in st.cons for s, _ in k if s.startswith(prefix)}
         for s in syms:
             st = self.forget(st, s)
         return State(st.cons, frozenset(n for n in st.ne if not any(s.startswith(prefix) for s, _ in n[0])))
+
+    def forget_suffix_pair(self, st, name):
+        """the input pointer `name` moves: what the decoders would report at the old position is no longer relevant"""
+        syms = {s_ for k, _ in st.cons for s_, _v in k if s_.startswith("P:") and s_.split(":")[3] == name}
+        for s_ in syms:
+            st = self.forget(st, s_)
+        return st
 
     def assign(self, st, sym, lin):
         """sym := lin (lin may mention sym)"""
@@ -345,9 +503,18 @@ class Analyzer:
             return tuple(sorted((b if s == a else s, v) for s, v in k))
         return State(frozenset((rn(k), bd) for k, bd in st.cons), frozenset((rn(k), c) for k, c in st.ne))
 
+    BOTTOM = State(frozenset({((), -1)}))
+
     def add(self, st, lhs, op, rhs):
         cons = set(st.cons)
         ne = set(st.ne)
+        # a condition that contradicts what is known leaves no state (the path cannot be taken)
+        lt, gt = le(lhs + C(1), rhs), le(rhs + C(1), lhs)
+        if (op in ("<=", "<") and implied(st.cons, gt if op == "<=" else le(rhs, lhs))) or \
+                (op in (">=", ">") and implied(st.cons, lt if op == ">=" else le(lhs, rhs))) or \
+                (op == "==" and (implied(st.cons, lt) or implied(st.cons, gt))) or \
+                (op == "!=" and implied(st.cons, le(lhs, rhs)) and implied(st.cons, le(rhs, lhs))):
+            return self.BOTTOM
         if op == "<=":
             cons.add(le(lhs, rhs))
         elif op == "<":
@@ -421,12 +588,14 @@ class Analyzer:
             self.reads.setdefault((node.line, text), []).append(ok)
 
     def check_len(self, st, pair, off, ln, node, text):
-        ok = off is not None and ln is not None and implied(st.cons, le(V(pair.K) + off + ln, V(pair.c0)))
+        ok = ln is not None and implied(st.cons, le(ln, C(0)))       # nothing is read
+        ok = ok or (off is not None and ln is not None and implied(st.cons, le(V(pair.K) + off + ln, V(pair.c0))))
         if self.record:
             self.reads.setdefault((node.line, text), []).append(ok)
 
     # ---- expressions
     def eval(self, e, st, node):
+        self.cur = st
         if not isinstance(e, dict):
             return st
         k = e.get("k")
@@ -441,7 +610,8 @@ class Analyzer:
             st = self.reads_in(e["y"], st, node)
             if lhs.get("k") == "Ref" and lhs.get("p"):
                 vid = lhs["id"]
-                if vid in self.pairs:
+                po_ = self.ptr_offset(rhs) if e["op"] == "=" else None
+                if vid in self.pairs and not (po_ is not None and po_[0] is not self.pairs[vid] and po_[1] is not None):
                     pair = self.pairs[vid]
                     d = None
                     if e["op"] == "+=":
@@ -454,6 +624,7 @@ class Analyzer:
                         if po is not None and po[0] is pair:
                             d = po[1]
                     st = self.forget_prefix(st, "B:%s[" % pair.name)
+                    st = self.forget_suffix_pair(st, pair.name)
                     return self.assign(st, pair.K, None if d is None else V(pair.K) + d)
                 # a local pointer that takes the value of a tracked pointer becomes an alias pair
                 po = self.ptr_offset(rhs) if e["op"] == "=" else None
@@ -463,20 +634,25 @@ class Analyzer:
                     if newp is None:
                         newp = Pair(lhs["n"], vid)
                         self.pairs[vid] = newp
+                    newp.root = base.root
                     st = self.forget_prefix(st, "B:%s[" % newp.name)
                     st = self.forget(st, newp.K)
                     st = self.forget(st, newp.c0)
                     return State(st.cons | {le(V(newp.K), V(base.K) + po[1]), le(V(base.K) + po[1], V(newp.K)),
                                             le(V(newp.c0), V(base.c0)), le(V(base.c0), V(newp.c0))}, st.ne)
-                return st
+                return self.forget(st, self.sym(lhs))
             target = self.lin(lhs) if lhs.get("k") in ("Ref", "Member", "Un") else None
             if target is None or len(target.t) != 1:
                 return self.reads_in(lhs, st, node, lvalue=True)
             sym = list(target.t)[0]
             if e["op"] == "=":
                 if rhs.get("k") == "Cond":
-                    return self.assign_cond(st, sym, rhs)
-                return self.assign(st, sym, self.lin(rhs))
+                    return self.assign_cond(st, sym, rhs, node)
+                st, l_ = self.lin_side(rhs, st, node)
+                st = self.assign(st, sym, l_)
+                if l_ is not None and any(x.startswith("q:") for x in l_.t):
+                    st = self.tighten(st, sym)
+                return st
             if e["op"] in ("+=", "-="):
                 d = self.lin(rhs)
                 if e["op"] == "-=" and lhs.get("k") == "Ref" and lhs["id"] in self.cnt_ids:
@@ -485,12 +661,14 @@ class Analyzer:
                         self.subs.setdefault((node.line, show(e)[:50]), []).append(ok)
                 if d is not None and e["op"] == "-=":
                     d = d.scale(-1)
+                if d is not None and not (implied(st.cons, le(V(sym) + d, C(MAXW))) and implied(st.cons, le(C(0), V(sym) + d))):
+                    d = None       # the update may wrap
                 return self.assign(st, sym, None if d is None else V(sym) + d)
             if e["op"] == "*=" and self.lin(rhs) is not None and not self.lin(rhs).t:
                 kk = self.lin(rhs).c
-                tmp = self.assign(st, sym, None)
-                # x *= k : new x = k * old x ; keep x >= 0 only
-                return tmp
+                if kk >= 1 and implied(st.cons, le(V(sym).scale(kk), C(MAXW))):
+                    return self.assign(st, sym, V(sym).scale(kk))
+                return self.assign(st, sym, None)
             return self.assign(st, sym, None)
         if k == "Un" and e["op"] in ("pre++", "pre--", "post++", "post--"):
             l = strip(e["e"])
@@ -498,6 +676,7 @@ class Analyzer:
             if l.get("k") == "Ref" and l["id"] in self.pairs:
                 pair = self.pairs[l["id"]]
                 st = self.forget_prefix(st, "B:%s[" % pair.name)
+                st = self.forget_suffix_pair(st, pair.name)
                 return self.assign(st, pair.K, V(pair.K) + C(d))
             t = self.lin(l)
             if t is not None and len(t.t) == 1 and not l.get("p"):
@@ -505,11 +684,14 @@ class Analyzer:
                 if d < 0 and l.get("k") == "Ref" and l["id"] in self.cnt_ids:
                     if self.record:
                         self.subs.setdefault((node.line, show(e)[:50]), []).append(implied(st.cons, le(C(1), V(sym))))
+                if not (implied(st.cons, le(V(sym) + C(d), C(MAXW))) and implied(st.cons, le(C(0), V(sym) + C(d)))):
+                    return self.assign(st, sym, None)      # the step may wrap
                 return self.assign(st, sym, V(sym) + C(d))
             return self.reads_in(l, st, node)
         return self.reads_in(e, st, node)
 
-    def assign_cond(self, st, sym, rhs):
+    def assign_cond(self, st, sym, rhs, node=None):
+        self.cur = st
         a, b = self.lin(rhs["x"]), self.lin(rhs["y"])
         c = strip(rhs["c"])
         tmp = self.fresh()
@@ -521,16 +703,93 @@ class Analyzer:
                 swapped = (ca.key(), ca.c) == (b.key(), b.c) and (cb.key(), cb.c) == (a.key(), a.c)
                 if same or swapped:
                     is_min = (c["op"] in ("<", "<=")) == same
+                    def const_bound(l, sign):
+                        # greatest known constant lower bound (sign -1) / least upper bound (sign +1) of l, or None
+                        if not l.t:
+                            return l.c
+                        if len(l.t) == 1 and list(l.t.values())[0] == 1:
+                            x = list(l.t)[0]
+                            bs = [bd for k_, bd in st.cons if k_ == ((x, sign),)]
+                            if bs:
+                                return (min(bs) if sign == 1 else -min(bs)) + l.c
+                            return l.c if sign == -1 else None
+                        return None
                     if is_min:
                         cons |= {le(V(tmp), a), le(V(tmp), b)}
+                        la, lb = const_bound(a, -1), const_bound(b, -1)
+                        if la is not None and lb is not None:
+                            cons.add(le(C(min(la, lb)), V(tmp)))
                     else:
                         cons |= {le(a, V(tmp)), le(b, V(tmp))}
+                        ua, ub = const_bound(a, 1), const_bound(b, 1)
+                        if ua is not None and ub is not None:
+                            cons.add(le(V(tmp), C(max(ua, ub))))
         elif a is not None and b is not None and not a.t and not b.t:
             cons |= {le(V(tmp), C(max(a.c, b.c))), le(C(min(a.c, b.c)), V(tmp))}
+        else:
+            # general case: each arm under its branch condition, then the join of the two
+            outs = []
+            for pol, arm in ((True, rhs["x"]), (False, rhs["y"])):
+                s_ = self.assume_quiet(rhs["c"], pol, st, node)
+                if s_ is None or s_.bottom():
+                    continue
+                self.cur = s_
+                s_, l_ = self.lin_side(arm, s_, node)
+                o_ = self.assign(s_, sym, l_)
+                if l_ is not None and any(x.startswith("q:") for x in l_.t):
+                    o_ = self.tighten(o_, sym)
+                outs.append(o_)
+            if not outs:
+                return self.BOTTOM
+            r = outs[0]
+            for o in outs[1:]:
+                r = self.join(r, o)
+            return r
         st2 = self.forget(State(frozenset(cons), st.ne), sym)
         return self.rename(st2, tmp, sym)
 
+    def tighten(self, st, sym):
+        """make the constant bounds of sym that follow from the relations explicit (projection of every other symbol
+        of its connected component); used after an assignment that involves a quotient"""
+        comp = {sym}
+        changed = True
+        while changed:
+            changed = False
+            for k, _ in st.cons:
+                ks = {x for x, _v in k}
+                if ks & comp and not ks <= comp:
+                    comp |= ks
+                    changed = True
+        rel = frozenset((k, b) for k, b in st.cons if {x for x, _v in k} <= comp)
+        if len(comp) > 12:
+            return st
+        for x in sorted(comp - {sym}):
+            extra = {(((x, 1),), 255)} if x.startswith("B:") else {(((x, 1),), MAXW >> 1)} if x.startswith("E0:") else set()
+            rel = project(frozenset(rel | extra), x)
+        add = set()
+        for k, b in rel:
+            if len(k) == 1 and k[0][0] == sym:
+                a = k[0][1]
+                add.add((((sym, 1 if a > 0 else -1),), b // abs(a)))
+        return State(st.cons | frozenset(add), st.ne) if add else st
+
+    def lin_side(self, e, st, node):
+        """lin(e) in state st, with the quotient symbols of the divisions it contains constrained in the returned state:
+        q = a / k (k a positive constant) is k*q <= a <= k*q + k - 1"""
+        self.cur = st
+        self.side = []
+        self.side_line = node.line if node is not None else 0
+        l = self.lin(e)
+        side, self.side = self.side, None
+        if l is None:
+            self.cur = st
+            return st, None
+        if side:
+            st = self.cur          # st plus the definitions of the quotient symbols
+        return st, l
+
     def reads_in(self, e, st, node, lvalue=False):
+        self.cur = st
         if not isinstance(e, dict):
             return st
         k = e.get("k")
@@ -608,13 +867,19 @@ class Analyzer:
         cn = c.get("callee")
         if cn == "utilAssert":
             return st
+        self.cur = st
         for a in c["a"]:
             if self.ptr_offset(a) is None and strip(a).get("k") not in ("Ref", "Int", "Str"):
                 st = self.reads_in(a, st, node)
+        self.cur = st
         proto = self.prog.proto(cn, self.f.unit) if cn else None
         kinds = self.contracts.get(cn, set())
         bound = None
         region = None
+        ghosts = []
+        self._post = None
+        st = self.output_write(c, cn, proto, st, node)
+        post = self._post
         if proto is not None and cn not in NOT_READERS:
             ps = proto.params
             for i, a in enumerate(c["a"]):
@@ -627,12 +892,14 @@ class Analyzer:
                     self.check_len(st, pair, off, ln, node, "%s(%s, %s)" % (cn, show(a)[:20], show(c["a"][i + 1])[:20]))
                     if ln is not None and off is not None:
                         g = self.fresh("%s:%d:len" % (c.get("l"), i))
+                        ghosts.append(g)
                         st = self.forget(st, g)
                         st = State(st.cons | {le(V(g), ln), le(ln, V(g))}, st.ne)
                         bound = V(g)
                         # region contract: *val points into [a, a + result) ...
                         if "region" in kinds:
                             gk = self.fresh("%s:%d:off" % (c.get("l"), i))
+                            ghosts.append(gk)
                             st = self.forget(st, gk)
                             st = State(st.cons | {le(V(gk), V(pair.K) + off), le(V(pair.K) + off, V(gk))}, st.ne)
                             region = (pair, V(gk), V(g))
@@ -643,6 +910,8 @@ class Analyzer:
             if sa.get("k") == "Un" and sa["op"] == "&" and strip(sa["e"]).get("k") == "Ref":
                 r = strip(sa["e"])
                 outs.append((i, r))
+                if r.get("p"):
+                    st = self.forget(st, self.sym(r))      # its null-ness symbol
             elif sa.get("k") == "Ref" and sa.get("p") and not sa.get("pc") and sa["id"] not in self.pairs and \
                     (sa.get("t") or "").replace(" ", "") in ("size_t*", "u32*"):
                 st = self.forget(st, "D:%d" % sa["id"])
@@ -653,8 +922,14 @@ class Analyzer:
             if sa.get("p") and not sa.get("pc"):
                 r = ir.root_ref(sa)
                 if r is not None:
-                    st = self.forget_prefix(st, "m:%s->" % r["n"])
-                    st = self.forget_prefix(st, "m:%s." % r["n"])
+                    ap = access_path(sa) if sa.get("k") == "Member" else None
+                    if ap and "[" in (sa.get("t") or ""):
+                        # an array member is passed: the callee gets that member (DB.4 bounds what it writes there)
+                        for suf in ("", ".", "->", "["):
+                            st = self.forget_prefix(st, "m:%s%s" % (ap, suf)) if suf else self.forget(st, "m:" + ap)
+                    else:
+                        st = self.forget_prefix(st, "m:%s->" % r["n"])
+                        st = self.forget_prefix(st, "m:%s." % r["n"])
         val_ref = len_ref = None
         if proto is not None:
             for i, r in outs:
@@ -680,9 +955,17 @@ class Analyzer:
                     len_lin = self.lin(c["a"][i])
                     if len_lin is not None:
                         g2 = self.fresh("%s:%d:vlen" % (c.get("l"), i))
+                        ghosts.append(g2)
                         st = self.forget(st, g2)
                         st = State(st.cons | {le(V(g2), len_lin), le(len_lin, V(g2))}, st.ne)
                         len_lin = V(g2)
+        owned = False
+        if "zero" in kinds and bound is None:
+            gz = self.fresh("%s:zero" % c.get("l"))
+            ghosts.append(gz)
+            st = self.forget(st, gz)
+            st = State(st.cons | {le(V(gz), C(0))}, st.ne)
+            bound = V(gz)
         if result is not None:
             rs = strip(result)
             tl = self.lin(rs) if not rs.get("p") else None
@@ -690,20 +973,153 @@ class Analyzer:
                 sym = list(tl.t)[0]
                 st = self.forget(st, sym)
                 if rs.get("k") == "Ref":
-                    if ("consumed" in kinds or "region" in kinds) and bound is not None:
-                        self.pending[rs["id"]] = (bound, region, val_ref, len_ref if len_ref is not None else len_lin)
-                    else:
-                        self.pending.pop(rs["id"], None)
-        elif ("consumed" in kinds or "region" in kinds):
-            pass
+                    # the snapshots of an earlier call whose result was kept in the same variable are now stale
+                    for g_, o_ in list(self.ghost_owner.items()):
+                        if o_ == rs["id"] and g_ not in ghosts:
+                            st = self.forget(st, g_)
+                    if ("consumed" in kinds or "region" in kinds) and bound is not None and ghosts:
+                        # keyed by the call's snapshot symbol: the entry applies in a state only while that symbol is
+                        # still constrained there, i.e. on paths where this call was the last one stored in the variable
+                        self.pending.setdefault(rs["id"], {})[ghosts[0]] = \
+                            (bound, region, val_ref, len_ref if len_ref is not None else len_lin, self.instantiate_post(cn, c))
+                        owned = True
+                        for g_ in ghosts:
+                            self.ghost_owner[g_] = rs["id"]
+        if not owned:
+            # nobody will look at the snapshot symbols of this call again
+            for g_ in ghosts:
+                st = self.forget(st, g_)
+        if post is not None:
+            L, psym = post
+            st = self.forget(st, L)
+            st = State(st.cons | {le(V(L), V(psym)), le(V(psym), V(L))}, st.ne)
+        return st
+
+    def output_write(self, c, cn, proto, st, node):
+        """DB.4: a value decoder that copies to a fixed-size object writes no more than the object holds.
+        P:<callee>:<tag>:<input> stands for the length this decoder reports at the current input position; a probing
+        call (val = 0, &L) makes L equal to it, so the tests made on L bound the later copying call."""
+        w = writer_info(proto)
+        if w is None:
+            return st
+        vi, li, lptr, unit = w
+        if max(vi, li) >= len(c["a"]):
+            return st
+        src = None
+        for i, a in enumerate(c["a"]):
+            if i < len(proto.params) and proto.params[i].get("pc") and self.ptr_offset(a) is not None:
+                src = self.ptr_offset(a)
+                break
+        tag = [show(a) for i, a in enumerate(c["a"]) if i < len(proto.params) and proto.params[i]["n"] == "tag"]
+        psym = None
+        if lptr and src is not None and src[1] is not None and not src[1].t:
+            psym = "P:%s:%s:%s:%d" % (cn, tag[0] if tag else "-", src[0].name, src[1].c)
+            la = strip(c["a"][li])
+            if la.get("k") == "Un" and la["op"] == "&" and strip(la["e"]).get("k") == "Ref" and not strip(la["e"]).get("p"):
+                self._post = (self.sym(strip(la["e"])), psym)      # applied once the call's own effects are modelled
+        dest = c["a"][vi]
+        if int_val(dest) == 0:
+            return st
+        cap = capacity(dest)
+        text = "%s(%s, ..)" % (cn, show(dest)[:30])
+        if cap is None:
+            if self.record:
+                self.writes.setdefault((node.line, text), []).append(None)      # caller-sized buffer
+            return st
+        ext = V(psym) if (lptr and psym is not None) else None if lptr else self.lin(c["a"][li])
+        ok = False
+        if ext is not None:
+            if unit == "bits":
+                ok = implied(st.cons, le(ext, C(8 * cap)))
+            elif unit == "chars":
+                ok = implied(st.cons, le(ext + C(1), C(cap)))
+            else:
+                ok = implied(st.cons, le(ext, C(cap)))
+        if self.record:
+            self.writes.setdefault((node.line, text), []).append((ok, cap, unit))
+        return st
+
+    def instantiate_post(self, cn, c):
+        post = POSTS.get(cn)
+        if not post:
+            return None
+        out = []
+        for k, b in post:
+            nk = []
+            for s_, v in k:
+                m = re.match(r"m:\$(\d+)(->|\.)(.*)$", s_)
+                i = int(m.group(1))
+                a = strip(c["a"][i]) if i < len(c["a"]) else None
+                if a is None or a.get("k") != "Ref" or not a.get("p"):
+                    nk = None
+                    break
+                nk.append(("m:%s%s%s" % (a["n"], m.group(2), m.group(3)), v))
+            if nk is not None:
+                out.append((tuple(sorted(nk)), b))
+        return out
+
+    def summary(self, states):
+        """constraints over the fields of pointer parameters (m:$i->field) that hold at every non-SIZE_MAX return"""
+        cfg = self.f.cfg()
+        pnames = {p["n"]: i for i, p in enumerate(self.f.params) if p.get("p")}
+        acc = None
+        for node in cfg.nodes:
+            if node.kind != "return" or node.e is None or int_val(strip(node.e)) == SIZE_MAX:
+                continue
+            for st in states.get(node.id, []):
+                cur = st
+                syms = {s_ for k, _ in cur.cons for s_, _v in k}
+                for s_ in sorted(syms):
+                    m = re.match(r"m:(\w+)(->|\.)", s_)
+                    if not (m and m.group(1) in pnames):
+                        cur = self.forget(cur, s_)
+                acc = cur if acc is None else self.join(acc, cur)
+        if acc is None:
+            return []
+        out = []
+        for k, b in acc.cons:
+            nk = []
+            for s_, v in k:
+                m = re.match(r"m:(\w+)((?:->|\.).*)$", s_)
+                nk.append(("m:$%d%s" % (pnames[m.group(1)], m.group(2)), v))
+            out.append((tuple(sorted(nk)), b))
+        return out
+
+    def pending_for(self, st, vid):
+        cands = self.pending.get(vid)
+        if not cands:
+            return None
+        syms = {s_ for k, _ in st.cons for s_, _v in k}
+        live = [e for g_, e in cands.items() if g_ in syms]
+        return live[0] if len(live) == 1 else None
+
+    def on_invalid(self, st, vid):
+        """result variable vid equals SIZE_MAX: the callee set no value pointer -- nothing is readable through it"""
+        ent = self.pending_for(st, vid)
+        if ent is None:
+            return st
+        bound, region, val_ref, len_ref, post = ent
+        if region is not None and val_ref is not None:
+            newp = self.pairs.get(val_ref["id"])
+            if newp is None:
+                newp = Pair(val_ref["n"], val_ref["id"])
+                self.pairs[val_ref["id"]] = newp
+            st = self.forget_prefix(st, "B:%s[" % newp.name)
+            st = self.forget(st, newp.K)
+            st = self.forget(st, newp.c0)
+            st = State(st.cons | {le(V(newp.K), C(0)), le(V(newp.c0), C(0))}, st.ne)
         return st
 
     def on_valid(self, st, vid):
         """result variable vid was compared unequal to SIZE_MAX"""
-        if vid not in self.pending:
+        ent = self.pending_for(st, vid)
+        if ent is None:
             return st
-        bound, region, val_ref, len_ref = self.pending[vid]
+        bound, region, val_ref, len_ref, post = ent
         st = self.add(st, V("v%d" % vid), "<=", bound)
+        if post:
+            # what the callee's successful returns guarantee about the fields of the objects it was given
+            st = State(st.cons | frozenset(post), st.ne)
         if region is not None and val_ref is not None:
             pair, start, avail = region
             # *val = start + t, with t + *len <= result <= avail: the value region is [K', K' + len) inside the old one
@@ -724,11 +1140,14 @@ class Analyzer:
             if ln is not None:
                 cons |= {le(V(newp.c0), ln), le(ln, V(newp.c0))}
                 cons.add(le(ln, V("v%d" % vid)))
+                # kept in this explicit form: it survives `++val, --len` and the join with the branch that has no value
+                cons.add(le(V(newp.K) + ln, V(newp.c0)))
             st = State(frozenset(cons), st.ne)
         return st
 
     # ---- conditions
     def assume(self, c, pol, st, node):
+        self.cur = st
         c = strip(c)
         k = c.get("k")
         if k == "Bin" and c["op"] in ("==", "!=", "<", "<=", ">", ">="):
@@ -746,16 +1165,26 @@ class Analyzer:
                 if int_val(b) == SIZE_MAX and a.get("k") == "Ref":
                     if op == "!=":
                         return self.on_valid(st, a["id"])
+                    if op == "==":
+                        return self.on_invalid(st, a["id"])
                     return st
             lx, ly = self.lin(x), self.lin(y)
             if lx is not None and ly is not None:
                 return self.add(st, lx, op, ly)
+            if op in ("==", "!="):
+                for a, b in ((x, y), (y, x)):
+                    if a.get("k") == "Ref" and a.get("p") and a.get("rk") in ("param", "local") and \
+                            a["id"] not in self.pairs and int_val(b) == 0:
+                        return self.add(st, V(self.sym(a)), op, C(0))
             return st
         st = self.reads_in(c, st, node)
         if k in ("Ref", "Member", "Index") and not c.get("p"):
             lx = self.lin(c)
             if lx is not None:
                 return self.add(st, lx, "!=" if pol else "==", C(0))
+        if k == "Ref" and c.get("p") and c.get("rk") in ("param", "local") and c["id"] not in self.pairs:
+            # an untracked pointer used as a truth value: remember whether it is null (one symbol, 0 or >= 1)
+            return self.add(st, V(self.sym(c)), "!=" if pol else "==", C(0))
         return st
 
     # ---- fixpoint
@@ -771,13 +1200,38 @@ class Analyzer:
         syms = set()
         for k, _ in a.cons | b.cons:
             for s_, _v in k:
-                if not s_.startswith(("t", "B:")):
+                if not s_.startswith(("t", "B:", "g:", "E0:", "c0:")):
                     syms.add(s_)
-        syms = sorted(syms)
+        # a symbol pinned to one constant on both sides is described by its interval alone
+        def pinned(st, x):
+            lo = [bd for k, bd in st.cons if k == ((x, -1),)]
+            hi = [bd for k, bd in st.cons if k == ((x, 1),)]
+            return bool(lo and hi and -min(lo) == min(hi))
+        syms = sorted(x for x in syms if not (pinned(a, x) and pinned(b, x)))
+        def components(st):
+            comp = {}
+            for k, _ in st.cons:
+                ks = [s_ for s_, _v in k]
+                root = None
+                for s_ in ks:
+                    r_ = s_
+                    while comp.get(r_, r_) != r_:
+                        r_ = comp[r_]
+                    if root is None:
+                        root = r_
+                    comp[r_] = root
+                    comp[s_] = root
+            def find(s_):
+                while comp.get(s_, s_) != s_:
+                    s_ = comp[s_]
+                return s_
+            return find
+        fa, fb = components(a), components(b)
         if len(syms) <= 14:
             for x in syms:
                 for y in syms:
-                    if x == y:
+                    # a relation between symbols that are unrelated on both sides says no more than their intervals
+                    if x == y or (fa(x) != fa(y) and fb(x) != fb(y)):
                         continue
                     for kk in (-1, 0):
                         c = (tuple(sorted(((x, 1), (y, -1)))), kk)
@@ -787,23 +1241,108 @@ class Analyzer:
                             keep.add(c)
                             break
         def bounds(st, sign):
-            out = {}
-            for k, bd in st.cons:
-                if len(k) == 1 and k[0][1] == sign:
-                    out[k[0][0]] = min(out.get(k[0][0], bd), bd)
-            return out
+            """x*sign <= bound for every symbol, by interval propagation through the constraints (all symbols >= 0)"""
+            lo, hi = {}, {}
+            syms_ = {s_ for k, _ in st.cons for s_, _v in k}
+            for x in syms_:
+                lo[x] = 0
+                hi[x] = 255 if x.startswith("B:") else None
+            for _ in range(6):
+                changed = False
+                for k, bd in st.cons:
+                    for x, ax in k:
+                        rest = 0
+                        for y, ay in k:
+                            if y == x:
+                                continue
+                            if ay > 0:
+                                rest += ay * lo[y]
+                            elif hi[y] is None:
+                                rest = None
+                                break
+                            else:
+                                rest += ay * hi[y]
+                        if rest is None:
+                            continue
+                        r = bd - rest
+                        if ax > 0:
+                            v = r // ax
+                            if hi[x] is None or v < hi[x]:
+                                hi[x] = v
+                                changed = True
+                        else:
+                            v = -(r // -ax)          # ceil(r / ax) for ax < 0:  x >= r/ax
+                            if v > lo[x]:
+                                lo[x] = v
+                                changed = True
+                if not changed:
+                    break
+            if sign == 1:
+                return {x: v for x, v in hi.items() if v is not None}
+            return {x: -v for x, v in lo.items() if v > 0}
         for sign in (1, -1):
             ba, bb = bounds(a, sign), bounds(b, sign)
             for x in set(ba) & set(bb):
                 keep.add((((x, sign),), max(ba[x], bb[x])))
-        return State(frozenset(keep), a.ne & b.ne)
+        keep = frozenset(keep)
+        if len(keep) > 30:
+            keep = simplify(keep)
+        return State(keep, a.ne & b.ne)
 
     def widen(self, old, new):
         keep = {c for c in old.cons if c in new.cons or implied(new.cons, c)}
         return State(frozenset(keep), old.ne & new.ne)
 
+    def _liveness(self, cfg):
+        """var id -> set of node ids from which a mention of the variable is still reachable"""
+        mention = {}
+        for node in cfg.nodes:
+            if node.e is None:
+                continue
+            for n in walk(node.e):
+                if n.get("k") in ("Ref", "Decl") and n.get("id") is not None:
+                    mention.setdefault(n["id"], set()).add(node.id)
+        preds = {}
+        for node in cfg.nodes:
+            for _, s_ in node.succ:
+                preds.setdefault(s_.id, set()).add(node.id)
+        live = {}
+        for vid, nodes in mention.items():
+            seen = set(nodes)
+            work = list(nodes)
+            while work:
+                x = work.pop()
+                for p_ in preds.get(x, ()):
+                    if p_ not in seen:
+                        seen.add(p_)
+                        work.append(p_)
+            live[vid] = seen
+        return live
+
+    def drop_dead(self, st, nid):
+        """project out the symbols of locals that are never mentioned again from node nid on (and the call snapshots
+        owned by them): keeps the constraint systems of long straight-line decoders small"""
+        dead = []
+        syms = {s_ for k, _ in st.cons for s_, _v in k}
+        for s_ in syms:
+            if s_.startswith("v") and s_[1:].isdigit():
+                vid = int(s_[1:])
+                if vid in self.param_ids:
+                    continue
+                if nid not in self.live.get(vid, ()):
+                    dead.append(s_)
+            elif s_.startswith("g:"):
+                o = self.ghost_owner.get(s_)
+                if o is not None and nid not in self.live.get(o, ()):
+                    dead.append(s_)
+        for s_ in dead:
+            st = self.forget(st, s_)
+        return st
+
     def run(self):
         cfg = self.f.cfg()
+        self.live = self._liveness(cfg)
+        self.param_ids = {p["id"] for p in self.f.params}
         init = set()
         for p in list(self.pairs.values()):
             cs = V("v%d" % p.cnt_id)
@@ -864,6 +1403,7 @@ class Analyzer:
                         self.check_return(node.e, st2, node)
                     outs = [(s, st2) for _, s in node.succ]
                 for s, st2 in outs:
+                    st2 = self.drop_dead(st2, s.id)
                     cur = states.setdefault(s.id, [])
                     if any(x.key() == st2.key() or leq_state(st2, x) for x in cur):
                         continue
@@ -905,6 +1445,7 @@ class Analyzer:
         return states
 
     def check_return(self, e, st, node):
+        self.cur = st
         if not self.record:
             return
         es = strip(e)
@@ -921,9 +1462,9 @@ class Analyzer:
         if es.get("k") == "Call" and "consumed" in self.contracts.get(es.get("callee"), set()):
             self.rets.setdefault((node.line, show(e)[:40]), []).append((True, "delegated"))
             return
-        if es.get("k") == "Ref" and es["id"] in self.pending:
+        if es.get("k") == "Ref" and self.pending_for(st, es["id"]) is not None:
             # a callee result returned as is: SIZE_MAX or bounded by what the callee was given
-            bound = self.pending[es["id"]][0]
+            bound = self.pending_for(st, es["id"])[0]
             ok = implied(st.cons, le(V("v%d" % es["id"]), V(pair.E0))) or implied(st.cons, le(bound, V(pair.E0)))
             self.rets.setdefault((node.line, show(e)[:40]), []).append((ok, "propagated"))
             return
